@@ -11,6 +11,7 @@ From Verif Require Import Proofs.ParsersExact.
 From Verif Require Import Gen.Dispatch.
 From Verif Require Import Proofs.ParserFacts.
 From Verif Require Gen.ParserFacts.
+From Verif Require Gen.RegexInventory.
 Import ListNotations.
 Open Scope Z_scope.
 
@@ -348,6 +349,20 @@ Example C19_unix_line_exact_nonvacuous :
          (k_size, [52; 48; 57; 54]); (k_modify, [50; 48])]).
 Proof. exact unix_line_exact_example. Qed.
 
+(* "never hangs", structurally: every regular expression of the aioftp sources, regenerated on every run with a
+   syntactic verdict computed by CPython's own pattern parser (Gen/RegexInventory.v) -- none has an unbounded repeat over
+   an ambiguous body (nested quantifier: exponential backtracking), and the patterns are exactly the two that
+   Model/Parsers.v models, used in parse_epsv_response / parse_pasv_response *)
+Theorem C19_regex_no_nested_quantifier :
+  regex_no_nested_quantifier Gen.RegexInventory.regex_inventory_translator_ok Gen.RegexInventory.regex_inventory = true.
+Proof. vm_compute. reflexivity. Qed.
+Print Assumptions C19_regex_no_nested_quantifier.
+
+Theorem C19_regex_inventory_obligation :
+  regex_inventory_check Gen.RegexInventory.regex_inventory_translator_ok Gen.RegexInventory.regex_inventory = true.
+Proof. vm_compute. reflexivity. Qed.
+Print Assumptions C19_regex_inventory_obligation.
+
 (* ---- structural tie of the client parsers ----
    The facts of client.py the model was written from -- parser chain of parse_list_line, the class
    names of its except tuple, that the handler only collects, the final raise; the two regular
@@ -380,6 +395,13 @@ Theorem C19_funnel_is_source_funnel :
   forall e, caught_by Gen.ParserFacts.list_line_funnel e = Some (funnel e).
 Proof. exact (parser_facts_funnel _ _ _ _ _ _ _ _ _ _ _ _ _ _ C19_parser_structure_obligation). Qed.
 Print Assumptions C19_funnel_is_source_funnel.
+
+(* decoding is a stateless function of the line at every site the model covers (so the `dec` of the theorems above is what the
+   source does): regenerated decode call sites = `<bytes>.decode(encoding=self.encoding)` everywhere *)
+Theorem C19_decode_is_stateless_obligation :
+  decode_sites_check Gen.ParserFacts.decode_sites = true.
+Proof. vm_compute. reflexivity. Qed.
+Print Assumptions C19_decode_is_stateless_obligation.
 
 (* non-vacuity *)
 Example C19_unix_line_parses :
